@@ -223,10 +223,12 @@ impl CoordTrait for PointZ {
             1 => self.y(),
             2 => self.z,
             3 => {
-                if self.m > NO_DATA {
-                    self.m
-                } else {
+                // Same test as in `dim()`, so that every index below the reported
+                // dimension count can be read (a NaN measure counts as a measure)
+                if self.m <= NO_DATA {
                     panic!("asked for 4th item from coordinate but this coordinate does not have 4 dimensions.")
+                } else {
+                    self.m
                 }
             }
             _ => panic!("invalid dimension index"),
@@ -259,10 +261,12 @@ impl CoordTrait for &PointZ {
             1 => self.y(),
             2 => self.z,
             3 => {
-                if self.m > NO_DATA {
-                    self.m
-                } else {
+                // Same test as in `dim()`, so that every index below the reported
+                // dimension count can be read (a NaN measure counts as a measure)
+                if self.m <= NO_DATA {
                     panic!("asked for 4th item from coordinate but this coordinate does not have 4 dimensions.")
+                } else {
+                    self.m
                 }
             }
             _ => panic!("invalid dimension index"),
